@@ -1012,6 +1012,7 @@ func ruleUDecode(c *engine.Context) *report.Rule {
 		r.Instances++
 		var target *ssa.Alloc
 		var ucall *ssa.Call
+		errVerdict := false
 		for _, b := range fn.Blocks {
 			for _, ins := range b.Instrs {
 				if call, ok := ins.(*ssa.Call); ok {
@@ -1034,6 +1035,23 @@ func ruleUDecode(c *engine.Context) *report.Rule {
 					if !isLd || ld.X != ssa.Value(target) || !instrBefore(ucall, ld) {
 						ok, badAt = false, ret
 					}
+					// the error reported is encoding/json's verdict, nothing else: the call's own
+					// result, or nil where that result was tested to be nil
+					ev := ret.Results[1]
+					okErr := ev == ssa.Value(ucall)
+					if cst, isC := ev.(*ssa.Const); isC && cst.IsNil() {
+						for _, dc := range dominatingConds(b) {
+							if bo, isBo := dc.cond.(*ssa.BinOp); isBo && (bo.X == ssa.Value(ucall) || bo.Y == ssa.Value(ucall)) && (isNilConstV(bo.X) || isNilConstV(bo.Y)) {
+								if (bo.Op == token.EQL) == dc.taken {
+									okErr = true
+								}
+							}
+						}
+					}
+					if !okErr {
+						ok, badAt = false, ret
+						errVerdict = true
+					}
 				}
 			}
 		}
@@ -1044,8 +1062,13 @@ func ruleUDecode(c *engine.Context) *report.Rule {
 			if badAt != nil {
 				pos = p.RelPos(badAt.Pos())
 			}
-			r.Violation("decoder "+load.FuncName(fn)+" has a path around encoding/json", pos,
-				"%s returns, on some path, a string that was not produced by encoding/json.Unmarshal: member names decoded on that path can differ from what the JSON decoder (and therefore the document's own keys) would give", load.FuncName(fn))
+			if errVerdict {
+				r.Violation("decoder "+load.FuncName(fn)+" overrides the verdict of encoding/json", pos,
+					"%s reports an error that is not encoding/json's own result for the text (or hides that result): a member name that is valid JSON text is rejected in the quoted spellings while the same member is addressable in another spelling", load.FuncName(fn))
+			} else {
+				r.Violation("decoder "+load.FuncName(fn)+" has a path around encoding/json", pos,
+					"%s returns, on some path, a string that was not produced by encoding/json.Unmarshal: member names decoded on that path can differ from what the JSON decoder (and therefore the document's own keys) would give", load.FuncName(fn))
+			}
 		}
 	}
 	// functions with a single string result that return only decoder output (directly, or from each other)
@@ -1146,6 +1169,7 @@ func ruleUDecode(c *engine.Context) *report.Rule {
 			return chk(v, map[ssa.Value]bool{})
 		}
 		ok := true
+		rewrite := false
 		var badAt ssa.Instruction
 		for _, b := range fn.Blocks {
 			if ret, isRet := b.Instrs[len(b.Instrs)-1].(*ssa.Return); isRet && len(ret.Results) == 1 {
@@ -1154,9 +1178,32 @@ func ruleUDecode(c *engine.Context) *report.Rule {
 				}
 			}
 		}
+		// a quote helper without a conversion loop hands the captured text to the decoder as it is
+		// (only wrapped in quotes): no string transformation in between
+		if len(cfgutil.Loops(fn)) == 0 {
+			for _, b := range fn.Blocks {
+				for _, ins := range b.Instrs {
+					call, isCall := ins.(*ssa.Call)
+					if !isCall {
+						continue
+					}
+					sc := call.Call.StaticCallee()
+					if sc == nil || p.InPkg(sc) {
+						continue
+					}
+					if sc.Pkg != nil && (sc.Pkg.Pkg.Path() == "strings" || sc.Pkg.Pkg.Path() == "bytes" || sc.Pkg.Pkg.Path() == "regexp" || sc.Pkg.Pkg.Path() == "unicode/utf8" || sc.Pkg.Pkg.Path() == "strconv") {
+						ok, badAt = false, call
+						rewrite = true
+					}
+				}
+			}
+		}
 		r.Oblige(ok)
 		r.Sample("%s returns only decoder output: %v", load.FuncName(fn), ok)
-		if !ok {
+		if !ok && rewrite {
+			r.Violation(load.FuncName(fn)+" rewrites the quoted text before decoding", p.RelPos(badAt.Pos()),
+				"%s transforms the captured text with a library string function before it reaches the JSON decoder: a textual rewrite cannot respect escape parity (an escaped backslash followed by a quote), so some member names become unaddressable in this quote style only", load.FuncName(fn))
+		} else if !ok {
 			r.Violation(load.FuncName(fn)+" returns undecoded text on some path", p.RelPos(badAt.Pos()),
 				"%s has a path that returns something other than the JSON string decoder's result: on that path the text is not validated or unescaped the way the other quote style is, so `['k']` and `[\"k\"]` can denote different names or differ in which inputs they reject", load.FuncName(fn))
 		}
@@ -1531,6 +1578,16 @@ func ruleNVgSum(c *engine.Context) *report.Rule {
 					how = "the builder's argument (a completed chain handed in by the caller)"
 				case *ssa.Call:
 					how = "the result of " + describeCall(x)
+					// a helper that returns a different node than it was given must carry the summary over
+					if sc := x.Call.StaticCallee(); sc != nil && p.InPkg(sc) && sc.Blocks != nil {
+						if why := summaryLostIn(p, sc, setName, getName, nextGetter); why != "" {
+							how = ""
+							r.Oblige(false)
+							r.Violation(fmt.Sprintf("%s drops the value-group summary of the chain it shortens", load.FuncName(sc)), p.RelPos(sc.Pos()),
+								"%s returns the successor of the node it was given as the new head of the chain, %s; %s later asks that head whether the chain is a value group", load.FuncName(sc), why, where)
+							continue
+						}
+					}
 				default:
 					// a chain head assembled in this function: the pass must have run on it before
 					for _, bb := range fn.Blocks {
@@ -1685,4 +1742,60 @@ func ownNextNilDominates(p *load.Program, b *ssa.BasicBlock, recv ssa.Value, f i
 		}
 	}
 	return false
+}
+
+// summaryLostIn: helper h(node) returns, on some path, a node obtained from its parameter through
+// the next getter without having set the flag on it under the parameter's own flag. "" = fine.
+func summaryLostIn(p *load.Program, h *ssa.Function, setName, getName, nextGetter string) string {
+	var prm *ssa.Parameter
+	for _, pp := range h.Params {
+		if types.Identical(pp.Type(), p.Roles.NodeIface) {
+			prm = pp
+		}
+	}
+	if prm == nil {
+		return ""
+	}
+	isNextOfParam := func(v ssa.Value) bool {
+		call, ok := v.(*ssa.Call)
+		return ok && call.Call.IsInvoke() && call.Call.Method.Name() == nextGetter && call.Call.Value == ssa.Value(prm)
+	}
+	returnsSuccessor := false
+	var visit func(v ssa.Value, d int)
+	visit = func(v ssa.Value, d int) {
+		if d > 4 {
+			return
+		}
+		if isNextOfParam(v) {
+			returnsSuccessor = true
+		}
+		if ph, ok := v.(*ssa.Phi); ok {
+			for _, e := range ph.Edges {
+				visit(e, d+1)
+			}
+		}
+	}
+	for _, b := range h.Blocks {
+		if ret, ok := b.Instrs[len(b.Instrs)-1].(*ssa.Return); ok && len(ret.Results) == 1 {
+			visit(ret.Results[0], 0)
+		}
+	}
+	if !returnsSuccessor {
+		return ""
+	}
+	// the transfer: setter on next-of-param, under getter(param)
+	for _, b := range h.Blocks {
+		for _, ins := range b.Instrs {
+			call, ok := ins.(*ssa.Call)
+			if !ok || !call.Call.IsInvoke() || call.Call.Method.Name() != setName || !isNextOfParam(call.Call.Value) {
+				continue
+			}
+			for _, dc := range dominatingConds(b) {
+				if g, ok := dc.cond.(*ssa.Call); ok && dc.taken && g.Call.IsInvoke() && g.Call.Method.Name() == getName && g.Call.Value == ssa.Value(prm) {
+					return ""
+				}
+			}
+		}
+	}
+	return "but does not set the flag on that successor when the node it drops carried the summary"
 }
